@@ -99,7 +99,7 @@ def run(tier, seed, replay=None):
     import random
     ck = Check("C05", tier, seed)
     rng = random.Random(seed)
-    pr = check_proofs("C05")
+    pr = check_proofs("C05", coqchk=(tier == "thorough"))
     for t in pr["theorems"]:
         ck.oblige("theorem " + t, pr["ok"], pr["failed"] or "")
     if not pr["theorems"]:
